@@ -407,6 +407,22 @@ func (c *Chain) ReleaseMethod(method string) {
 	c.mu.Unlock()
 }
 
+// ReleaseOne lets exactly one suspended call of method go on (none if nothing is parked); the method stays held.
+func (c *Chain) ReleaseOne(method string) bool {
+	c.mu.Lock()
+	ch := c.Hold[method]
+	c.mu.Unlock()
+	if ch == nil {
+		return false
+	}
+	select {
+	case ch <- struct{}{}:
+		return true
+	default:
+		return false
+	}
+}
+
 func (c *Chain) ReleaseAll() {
 	c.mu.Lock()
 	for m, ch := range c.Hold {
